@@ -183,6 +183,27 @@ Proof.
 Qed.
 
 (* everything vstep guarantees about ranges, in one statement *)
+(* the two ways a disturbed read/write ends: as the plain one, or with the view untouched *)
+Lemma faulted_cases : forall v r v' nw out,
+  faulted v r = (v', nw, out) ->
+  (v' = fst r /\ nw = None /\ out = snd r /\ o_calls (snd r) = [])
+  \/ (v' = v /\ nw = None /\ out = mkOut (Failed 2) (o_warns (snd r)) [] /\ o_calls (snd r) <> []).
+Proof.
+  intros v r v' nw out H. unfold faulted in H. destruct (o_calls (snd r)) as [|c cs] eqn:Ec.
+  - left. inversion H. repeat split.
+  - right. inversion H. repeat split. discriminate.
+Qed.
+
+Lemma strict_cases : forall v r v' nw out,
+  strict v r = (v', nw, out) ->
+  (v' = fst r /\ nw = None /\ out = snd r /\ o_warns (snd r) <= 0)
+  \/ (v' = v /\ nw = None /\ out = mkOut (Failed 3) 0 [] /\ 0 < o_warns (snd r)).
+Proof.
+  intros v r v' nw out H. unfold strict in H. destruct (Z.ltb_spec 0 (o_warns (snd r))) as [Hw|Hw].
+  - right. inversion H. repeat split. exact Hw.
+  - left. inversion H. repeat split. exact Hw.
+Qed.
+
 Lemma vstep_ranges : forall fr m v o v' nw out,
   vstep fr m v o = (v', nw, out) ->
   (forall c, In c (o_calls out) -> call_within (v_start v) (v_end v) c)
@@ -194,47 +215,93 @@ Lemma vstep_ranges : forall fr m v o v' nw out,
 Proof.
   intros fr m v o v' nw out H.
   (* a branch that returns the view unchanged (or only closed), no new view, no call *)
-  assert (Hquiet : forall v1 r, (v1 = v \/ v1 = set_closed v) ->
-            (v', nw, out) = (v1, @None view, mkOut r 0 []) ->
+  assert (Hquiet : forall v1 r wn, (v1 = v \/ v1 = set_closed v) ->
+            (v', nw, out) = (v1, @None view, mkOut r wn []) ->
             (forall c, In c (o_calls out) -> call_within (v_start v) (v_end v) c)
             /\ v_start v' = v_start v /\ v_end v' = v_end v
             /\ (v_closed v = true -> v_closed v' = true)
             /\ (forall w, nw = Some w ->
                   exists a b step, o = Slice a b step /\ w = slice_view v a b
                          /\ o_res out = Ok (VView (v_start w) (v_end w)) /\ dead fr v = false)).
-  { intros v1 r Hv1 Heq. inversion Heq; subst v' nw out. cbn [o_calls].
+  { intros v1 r wn Hv1 Heq. inversion Heq; subst v' nw out. cbn [o_calls].
     split; [intros c []|].
     destruct Hv1 as [Hv1|Hv1]; subst v1; cbn [set_closed v_start v_end v_closed];
       (split; [reflexivity|]; split; [reflexivity|]; split; [tauto|]; intros w Hw; discriminate). }
-  destruct o as [n wh|n|bs|a b step| | | | | ]; cbn [vstep] in H.
-  - destruct (dead fr v) eqn:Ed; [symmetry in H; apply (Hquiet v _ (or_introl eq_refl) H)|].
-    destruct (seek v n wh) as [v1 r] eqn:Es. inversion H; subst v1 nw r; clear H.
+  (* a branch that is a plain seek/read/write *)
+  assert (Hplain : forall v1 r,
+            (forall c, In c (o_calls r) -> call_within (v_start v) (v_end v) c) ->
+            v_start v1 = v_start v -> v_end v1 = v_end v -> v_closed v1 = v_closed v ->
+            (v', nw, out) = (v1, @None view, r) ->
+            (forall c, In c (o_calls out) -> call_within (v_start v) (v_end v) c)
+            /\ v_start v' = v_start v /\ v_end v' = v_end v
+            /\ (v_closed v = true -> v_closed v' = true)
+            /\ (forall w, nw = Some w ->
+                  exists a b step, o = Slice a b step /\ w = slice_view v a b
+                         /\ o_res out = Ok (VView (v_start w) (v_end w)) /\ dead fr v = false)).
+  { intros v1 r Hc Hs He Hcl Heq. inversion Heq; subst v' nw out.
+    split; [assumption|]. split; [assumption|]. split; [assumption|].
+    split; [congruence|]. intros w Hw; discriminate. }
+  assert (Hclose : close_step fr v = (v', nw, out) ->
+            (forall c, In c (o_calls out) -> call_within (v_start v) (v_end v) c)
+            /\ v_start v' = v_start v /\ v_end v' = v_end v
+            /\ (v_closed v = true -> v_closed v' = true)
+            /\ (forall w, nw = Some w ->
+                  exists a b step, o = Slice a b step /\ w = slice_view v a b
+                         /\ o_res out = Ok (VView (v_start w) (v_end w)) /\ dead fr v = false)).
+  { intros Hc. unfold close_step in Hc.
+    destruct (v_closed v) eqn:Ec; [symmetry in Hc; apply (Hquiet v _ _ (or_introl eq_refl) Hc)|].
+    destruct fr; [symmetry in Hc; apply (Hquiet v _ _ (or_introl eq_refl) Hc)|].
+    symmetry in Hc; apply (Hquiet _ _ _ (or_intror eq_refl) Hc). }
+  destruct o as [n wh|n|bs|a b step| | | | | |n|bs|n|bs| | ]; cbn [vstep] in H.
+  - destruct (dead fr v) eqn:Ed; [symmetry in H; apply (Hquiet v _ _ (or_introl eq_refl) H)|].
+    destruct (seek v n wh) as [v1 r] eqn:Es.
     destruct (seek_same_range _ _ _ _ _ Es) as (Hc & Hs & He & Hcl).
-    rewrite Hc. split; [intros c []|]. split; [assumption|]. split; [assumption|].
-    split; [congruence|]. intros w Hw; discriminate.
-  - destruct (dead fr v) eqn:Ed; [symmetry in H; apply (Hquiet v _ (or_introl eq_refl) H)|].
-    destruct (read m v n) as [v1 r] eqn:Es. inversion H; subst v1 nw r; clear H.
+    symmetry in H. apply (Hplain v1 r); try assumption. rewrite Hc. intros c [].
+  - destruct (dead fr v) eqn:Ed; [symmetry in H; apply (Hquiet v _ _ (or_introl eq_refl) H)|].
+    destruct (read m v n) as [v1 r] eqn:Es.
     destruct (read_calls _ _ _ _ _ Es) as (Hc & Hs & He & Hcl).
-    split; [assumption|]. split; [assumption|]. split; [assumption|].
-    split; [congruence|]. intros w Hw; discriminate.
-  - destruct (dead fr v) eqn:Ed; [symmetry in H; apply (Hquiet v _ (or_introl eq_refl) H)|].
-    destruct (write v bs) as [v1 r] eqn:Es. inversion H; subst v1 nw r; clear H.
+    symmetry in H. apply (Hplain v1 r); assumption.
+  - destruct (dead fr v) eqn:Ed; [symmetry in H; apply (Hquiet v _ _ (or_introl eq_refl) H)|].
+    destruct (write v bs) as [v1 r] eqn:Es.
     destruct (write_calls _ _ _ _ Es) as (Hc & Hs & He & Hcl).
-    split; [assumption|]. split; [assumption|]. split; [assumption|].
-    split; [congruence|]. intros w Hw; discriminate.
-  - destruct (dead fr v) eqn:Ed; [symmetry in H; apply (Hquiet v _ (or_introl eq_refl) H)|].
-    destruct (contiguous step); [|symmetry in H; apply (Hquiet v _ (or_introl eq_refl) H)].
+    symmetry in H. apply (Hplain v1 r); assumption.
+  - destruct (dead fr v) eqn:Ed; [symmetry in H; apply (Hquiet v _ _ (or_introl eq_refl) H)|].
+    destruct (contiguous step); [|symmetry in H; apply (Hquiet v _ _ (or_introl eq_refl) H)].
     inversion H; subst v' nw out; clear H. cbn [o_calls o_res ok].
     split; [intros c []|]. split; [reflexivity|]. split; [reflexivity|]. split; [tauto|].
     intros w Hw. injection Hw as Hw. subst w. exists a, b, step.
     split; [reflexivity|]. split; [reflexivity|]. split; reflexivity.
-  - destruct (dead fr v) eqn:Ed; symmetry in H; apply (Hquiet v _ (or_introl eq_refl) H).
-  - symmetry in H; apply (Hquiet v _ (or_introl eq_refl) H).
-  - destruct (dead fr v) eqn:Ed; symmetry in H; apply (Hquiet v _ (or_introl eq_refl) H).
-  - destruct (dead fr v) eqn:Ed; symmetry in H; apply (Hquiet v _ (or_introl eq_refl) H).
-  - destruct (v_closed v) eqn:Ec; [symmetry in H; apply (Hquiet v _ (or_introl eq_refl) H)|].
-    destruct fr; [symmetry in H; apply (Hquiet v _ (or_introl eq_refl) H)|].
-    symmetry in H; apply (Hquiet _ _ (or_intror eq_refl) H).
+  - destruct (dead fr v) eqn:Ed; symmetry in H; apply (Hquiet v _ _ (or_introl eq_refl) H).
+  - symmetry in H; apply (Hquiet v _ _ (or_introl eq_refl) H).
+  - destruct (dead fr v) eqn:Ed; symmetry in H; apply (Hquiet v _ _ (or_introl eq_refl) H).
+  - destruct (dead fr v) eqn:Ed; symmetry in H; apply (Hquiet v _ _ (or_introl eq_refl) H).
+  - apply Hclose. exact H.
+  - destruct (dead fr v) eqn:Ed; [symmetry in H; apply (Hquiet v _ _ (or_introl eq_refl) H)|].
+    destruct (read m v n) as [v1 r] eqn:Es.
+    destruct (read_calls _ _ _ _ _ Es) as (Hc & Hs & He & Hcl).
+    destruct (faulted_cases _ _ _ _ _ H) as [(E1 & E2 & E3 & _)|(E1 & E2 & E3 & _)]; cbn [fst snd] in *.
+    + apply (Hplain v1 r); try assumption. congruence.
+    + apply (Hquiet v (Failed 2) (o_warns r) (or_introl eq_refl)). congruence.
+  - destruct (dead fr v) eqn:Ed; [symmetry in H; apply (Hquiet v _ _ (or_introl eq_refl) H)|].
+    destruct (write v bs) as [v1 r] eqn:Es.
+    destruct (write_calls _ _ _ _ Es) as (Hc & Hs & He & Hcl).
+    destruct (faulted_cases _ _ _ _ _ H) as [(E1 & E2 & E3 & _)|(E1 & E2 & E3 & _)]; cbn [fst snd] in *.
+    + apply (Hplain v1 r); try assumption. congruence.
+    + apply (Hquiet v (Failed 2) (o_warns r) (or_introl eq_refl)). congruence.
+  - destruct (dead fr v) eqn:Ed; [symmetry in H; apply (Hquiet v _ _ (or_introl eq_refl) H)|].
+    destruct (read m v n) as [v1 r] eqn:Es.
+    destruct (read_calls _ _ _ _ _ Es) as (Hc & Hs & He & Hcl).
+    destruct (strict_cases _ _ _ _ _ H) as [(E1 & E2 & E3 & _)|(E1 & E2 & E3 & _)]; cbn [fst snd] in *.
+    + apply (Hplain v1 r); try assumption. congruence.
+    + apply (Hquiet v (Failed 3) 0 (or_introl eq_refl)). congruence.
+  - destruct (dead fr v) eqn:Ed; [symmetry in H; apply (Hquiet v _ _ (or_introl eq_refl) H)|].
+    destruct (write v bs) as [v1 r] eqn:Es.
+    destruct (write_calls _ _ _ _ Es) as (Hc & Hs & He & Hcl).
+    destruct (strict_cases _ _ _ _ _ H) as [(E1 & E2 & E3 & _)|(E1 & E2 & E3 & _)]; cbn [fst snd] in *.
+    + apply (Hplain v1 r); try assumption. congruence.
+    + apply (Hquiet v (Failed 3) 0 (or_introl eq_refl)). congruence.
+  - symmetry in H; apply (Hquiet v _ _ (or_introl eq_refl) H).
+  - apply Hclose. exact H.
 Qed.
 
 (* ------------------------------------------------------------------------------------------ *)
@@ -388,18 +455,37 @@ Proof.
       apply (IH st' i v' Hnth' (Hd' Hd)).
 Qed.
 
-Lemma close_kills : forall st i v st' out,
-  nth_error (st_views st) i = Some v -> step st (OView i Close) = (st', out) ->
+Lemma closing_kills : forall st i v vo st' out,
+  vo = Close \/ vo = Exit ->
+  nth_error (st_views st) i = Some v -> step st (OView i vo) = (st', out) ->
   exists v', nth_error (st_views st') i = Some v' /\ dead (st_freed st') v' = true
              /\ o_calls out = [] /\ (o_res out = Ok VNone \/ o_res out = Failed 0).
 Proof.
-  intros st i v st' out Hnth Hstep. unfold step, step_with in Hstep. rewrite Hnth in Hstep. cbn [vstep] in Hstep.
+  intros st i v vo st' out Hvo Hnth Hstep. unfold step, step_with in Hstep. rewrite Hnth in Hstep.
+  assert (Hvs : vstep (st_freed st) (st_mem st) v vo = close_step (st_freed st) v)
+    by (destruct Hvo; subst vo; reflexivity).
+  rewrite Hvs in Hstep. unfold close_step in Hstep.
   assert (Hlt : (i < length (st_views st))%nat) by (apply nth_error_Some; congruence).
   destruct (v_closed v) eqn:Ec; [|destruct (st_freed st) eqn:Ef];
     inversion Hstep; subst st' out; clear Hstep; cbn [st_views st_freed opt_list o_calls o_res ok err];
     rewrite app_nil_r, nth_error_set_nth_eq by exact Hlt; eexists; (split; [reflexivity|]);
     unfold dead; cbn [set_closed v_closed]; rewrite ?Ec, ?Ef; repeat split; auto using orb_true_r.
 Qed.
+
+Lemma close_kills : forall st i v st' out,
+  nth_error (st_views st) i = Some v -> step st (OView i Close) = (st', out) ->
+  exists v', nth_error (st_views st') i = Some v' /\ dead (st_freed st') v' = true
+             /\ o_calls out = [] /\ (o_res out = Ok VNone \/ o_res out = Failed 0).
+Proof. intros st i v st' out. apply closing_kills. left. reflexivity. Qed.
+
+(* leaving a `with view:` block -- normally or by any exception: __exit__ ignores its arguments --
+   leaves the view dead *)
+Lemma exit_kills : forall st i v st' out,
+  nth_error (st_views st) i = Some v -> step st (OView i Exit) = (st', out) ->
+  exists v', nth_error (st_views st') i = Some v' /\ dead (st_freed st') v' = true
+             /\ o_calls out = [] /\ (o_res out = Ok VNone \/ o_res out = Failed 0).
+Proof. intros st i v st' out. apply closing_kills. right. reflexivity. Qed.
+
 
 Lemma free_kills : forall st st' out,
   st_views st <> [] -> step st OFree = (st', out) ->
@@ -454,6 +540,71 @@ Proof.
   - apply Z.eqb_neq in Ek. pose proof (zlen_nonneg _ b) as Hnn.
     assert (Hlt : (0 <? transfer (v_off v) (zlen bs) (vlen v)) = true) by (apply Z.ltb_lt; lia).
     rewrite Hlt. rewrite <- Hb. rewrite <- Hlen. repeat split; assumption.
+Qed.
+
+(* a read/write disturbed by the environment (the controller raises during the transfer, or the
+   TruncationWarning is raised as an exception) that fails leaves everything as it was: the view's
+   position, the list of views, the memory; and a faulted transfer is reported as failed *)
+Lemma disturbed_vstep : forall fr m v vo v' nw out k,
+  disturbed vo = true -> vstep fr m v vo = (v', nw, out) -> o_res out = Failed k ->
+  v' = v /\ nw = None /\ o_calls out = [].
+Proof.
+  intros fr m v vo v' nw out k Hd H Hres.
+  assert (Hread : forall n, exists x, o_res (snd (read m v n)) = Ok x).
+  { intros n. destruct (read m v n) as [v1 r] eqn:Er.
+    destruct (read_transfers _ _ _ _ _ Er) as (Hr & _). eexists. exact Hr. }
+  assert (Hwrite : forall bs, exists x, o_res (snd (write v bs)) = Ok x).
+  { intros bs. destruct (write v bs) as [v1 r] eqn:Er.
+    destruct (write_transfers _ _ _ _ Er) as (Hr & _). eexists. exact Hr. }
+  destruct vo; cbn [disturbed] in Hd; try discriminate; cbn [vstep] in H;
+    (destruct (dead fr v); [inversion H; subst; repeat split|]).
+  - destruct (faulted_cases _ _ _ _ _ H) as [(E1 & E2 & E3 & _)|(E1 & E2 & E3 & _)].
+    + destruct (Hread n) as (x & Hx). subst out. congruence.
+    + subst. repeat split.
+  - destruct (faulted_cases _ _ _ _ _ H) as [(E1 & E2 & E3 & _)|(E1 & E2 & E3 & _)].
+    + destruct (Hwrite bs) as (x & Hx). subst out. congruence.
+    + subst. repeat split.
+  - destruct (strict_cases _ _ _ _ _ H) as [(E1 & E2 & E3 & _)|(E1 & E2 & E3 & _)].
+    + destruct (Hread n) as (x & Hx). subst out. congruence.
+    + subst. repeat split.
+  - destruct (strict_cases _ _ _ _ _ H) as [(E1 & E2 & E3 & _)|(E1 & E2 & E3 & _)].
+    + destruct (Hwrite bs) as (x & Hx). subst out. congruence.
+    + subst. repeat split.
+Qed.
+
+Theorem failed_transfer_leaves_state : forall st i vo st' out k,
+  disturbed vo = true -> step st (OView i vo) = (st', out) -> o_res out = Failed k ->
+  st' = st /\ o_calls out = [].
+Proof.
+  intros st i vo st' out k Hd Hstep Hres. unfold step, step_with in Hstep.
+  destruct (nth_error (st_views st) i) as [v|] eqn:Hnth; [|inversion Hstep; subst; discriminate].
+  destruct (vstep (st_freed st) (st_mem st) v vo) as [[v' nw] out0] eqn:Hv.
+  inversion Hstep; subst st' out0; clear Hstep.
+  destruct (disturbed_vstep _ _ _ _ _ _ _ _ Hd Hv Hres) as (E1 & E2 & E3). subst v' nw.
+  rewrite E3. cbn [opt_list apply_calls fold_left]. rewrite app_nil_r, (set_nth_same _ _ _ _ Hnth).
+  split; [destruct st; reflexivity | reflexivity].
+Qed.
+
+(* when the transport fails: if the plain call would transfer (issue a controller call), the disturbed
+   one reports the transport's exception; otherwise it is the plain call *)
+Theorem fault_outcome : forall fr m v,
+  dead fr v = false ->
+  (forall n, let plain := vstep fr m v (Read n) in
+     vstep fr m v (FaultRead n) =
+       match o_calls (snd plain) with
+       | [] => plain
+       | _ :: _ => (v, None, mkOut (Failed 2) (o_warns (snd plain)) [])
+       end)
+  /\ (forall bs, let plain := vstep fr m v (Write bs) in
+     vstep fr m v (FaultWrite bs) =
+       match o_calls (snd plain) with
+       | [] => plain
+       | _ :: _ => (v, None, mkOut (Failed 2) (o_warns (snd plain)) [])
+       end).
+Proof.
+  intros fr m v Hd. split; intros x; cbn [vstep]; rewrite Hd; unfold faulted.
+  - destruct (read m v x) as [v1 r]. cbn [fst snd]. destruct (o_calls r); reflexivity.
+  - destruct (write v x) as [v1 r]. cbn [fst snd]. destruct (o_calls r); reflexivity.
 Qed.
 
 Lemma transfer_explicit : forall pos req n,
